@@ -1394,6 +1394,14 @@ func (c *Conn) sendPending(id uint32) error {
 
 		err := c.flushData(id, body, end)
 
+		// The reader is closed through the caller's Request, so while the
+		// Ctx is still held: the response may already be on its way, and
+		// RoundTrip returns, and its caller recycles the Request, the moment
+		// the Ctx is let go.
+		if err == nil && end {
+			c.closeBodyStream(pb)
+		}
+
 		pb.ctx.release()
 
 		if err != nil {
@@ -1401,7 +1409,6 @@ func (c *Conn) sendPending(id uint32) error {
 		}
 
 		if end {
-			c.closeBodyStream(pb)
 			return nil
 		}
 	}
